@@ -132,7 +132,7 @@ STORE_PROPS = {'code_eq_Q': ['C01', 'C10'], 'in_range': ['C02'], 'readback': ['C
                'count': ['C01'], 'shape': ['C01', 'C10'], 'val_dtype': ['C02'], 'dtype_str': ['C02', 'C12'],
                'meta_format': ['C02'], 'meta_n_int': ['C02'], 'meta_limits': ['C02'], 'meta_status_keys': ['C02', 'C04'],
                'meta_extended': ['C02', 'C18'], 'meta_modes': ['C02', 'C08'], 'input_unchanged': ['C20', 'C01', 'C11'],
-               'no_exception': ['C01', 'C02'], 'fresh_status': ['C04', 'C20'], 'fresh_config': ['C20']}
+               'no_exception': ['C01', 'C02']}
 
 
 def small_formats(tier):
@@ -146,6 +146,8 @@ class Init(Contract):
     """Fxp(val, signed, n_word, n_frac, rounding=, overflow=): a fresh well-formed object holding the
     C01 quantization of every element of `val`, whatever the carrier; the input container is not modified."""
     name = 'objects:Fxp.__init__'
+    primary = ['C01']
+    secondary_stride = 5
     layer = 4
     uses = LOWER
     props = STORE_PROPS
